@@ -12,7 +12,7 @@ RULE = ("cli.run (the working tree's cmd/ objects run in a forked child of the A
         "with one unusable key) x -a x -O (file, stdout, none) x -I detached payload; jws sig — templates x keys x -c x -O "
         "x -o x -I, every token produced is verified by `jws ver` and by the library; jws fmt — conversions between the "
         "three serializations and detached payloads, verification preserved; jwe dec — tokens of every key management "
-        "x serialization x input form x key arguments x -O x -I; jwe enc / jwe fmt (implementation and oracle only); jwk "
+        "x serialization x input form x key arguments x -O x -I; jwe fmt (modelled), jwe enc (implementation and oracle only); 529 deterministic command lines of the primitive-free subcommands; jwk "
         "thp / pub / eql / exc / gen / use on valid keys and keys the library refuses; b64 enc / dec on valid and invalid "
         "text. distinct = distinct command lines; non-trivial = every line")
 EXPLANATION = ("exit-status and output theorems are proved on the control-flow model of each subcommand (Jose/Cli.lean) over the "
